@@ -16,6 +16,7 @@ VIEW view
 INVARIANT TypeOK
 INVARIANT EffectiveWellDefined
 INVARIANT ResultComplete
+INVARIANT ReportedSetsAreEffective
 PROPERTY CallIsPure
 PROPERTY FullBindAgrees
 PROPERTY LateBindAgrees
